@@ -47,6 +47,10 @@ Reading of Python ADDED here (each as narrow as the methods of this class need; 
               must pass exactly one positional argument.  `make_lol_sequence` is `make_strand_table` at the typing "Python list
               of names" (`py_make_strand_table_list`).
   self.m      a property / method of `DSD_Complex` translated before (stub `uses`): `(← py_DSD_Complex_m args)`.
+  None-able int of either sign   (`n` of `rotate_pairtable_loc`, typed `Option Int`): `n = e` for a non-negative int `e` stores
+              `some (Int.ofNat e)`; `a + n` / `n + a` needs the int: `(← Py.unwrap n)`, TypeError for `None` as in Python 3
+              (`int + None`).  The nested `def wrap(x, m)` is rule "nested def" of pyfunc.py at the typing `Int`, `Int`
+              (floored `%` = `Py.imod`, ZeroDivisionError for `m = 0`).
 
 Typing (stubs METHODS): sequence elements are names (`String`), structure elements one-character strs (`Char`), loci are pairs of
 NON-NEGATIVE ints (`Nat × Nat`: `loc[0] < 0` is then decidably false; a negative entry is outside the typing), `pos` of
@@ -54,7 +58,7 @@ NON-NEGATIVE ints (`Nat × Nat`: `loc[0] < 0` is then decidably false; a negativ
 
 Not translated: `__init__` beyond the attribute initialisation (naming, class registry `NAMES` / `MEMORY` / `ID`, `warnings`),
 `canonical_form`, `do_memorycheck`, `rotate` (a generator over `self.size` that yields the object itself), `rotations`, the `name`
-setter (registries), `rotate_pairtable_loc` (ints of either sign through a nested def), `domains` (sets, `sorted` with a key on
+setter (registries), `domains` (sets, `sorted` with a key on
 domain objects), `is_domainlevel_complement` (the `~` operator of domain objects), `strands`, the dunder methods.
 """
 import ast, copy, os, sys
@@ -113,6 +117,9 @@ METHODS = [
     dict(method='lol_sequence', kind='getter', lean='lol_sequence', params=[], locals={}, ret=STAB, callees=['make_lol_sequence']),
     dict(method='get_domain', kind='method', lean='get_domain', params=[('loc', LOC)], locals={}, ret=STR,
          callees=['make_lol_sequence']),
+    # `loc[0]` and `n` are ints of either sign (the method exists to map loci of OTHER rotations), `loc[1]` a non-negative int
+    dict(method='rotate_pairtable_loc', kind='method', lean='rotate_pairtable_loc', params=[('loc', P(INT, NAT)), ('n', O(INT))],
+         locals={}, nested={'wrap': dict(params=[('x', INT), ('m', INT)], locals={}, ret=INT)}, ret=P(INT, NAT), uses=['size']),
 ]
 
 
@@ -237,7 +244,25 @@ class LegacyTx(MethodTx):
             if not (isinstance(ta, tuple) and ta[0] == 'List' and isinstance(ta[1], tuple) and ta[1][0] == 'List'):
                 raise Shape('%s: list(map(len, …)) over a %s' % (self.name, ty(ta)))
             return '(List.map List.length %s)' % a, L(NAT)
+        # a + n with a None-able int of either sign: the int is needed (TypeError for None)
+        if isinstance(node, ast.BinOp) and isinstance(node.op, ast.Add):
+            sides = []
+            for x in (node.left, node.right):
+                if isinstance(x, ast.Name) and x.id not in self.loopvars and self.var(x.id)[1] == O(INT):
+                    sides.append(('(← Py.unwrap %s)' % self.var(x.id)[0], INT))
+                else:
+                    sides.append(None)
+            if any(sides):
+                (a, ta), (b, tb) = [sd if sd is not None else self.ex(x, INT) for sd, x in zip(sides, (node.left, node.right))]
+                if ta in (NAT, INT) and tb in (NAT, INT):
+                    return '(%s + %s)' % (self.need(a, ta, INT), self.need(b, tb, INT)), INT
+                raise Shape('%s: + on %s and %s' % (self.name, ty(ta), ty(tb)))
         return super().ex(node, expect)
+
+    def need(self, code, t, want):
+        if want == O(INT) and t == NAT:                       # a non-negative int stored in a None-able int of either sign
+            return '(some (Int.ofNat %s))' % code
+        return super().need(code, t, want)
 
     def call(self, node, as_iter=False):
         f = node.func.id
